@@ -478,11 +478,11 @@ impl FormatSpec {
                 *case,
                 self.alternate_form,
             )),
-            Some(FormatType::Percentage) => match magnitude {
-                magnitude if magnitude.is_nan() => Ok("nan%".to_owned()),
-                magnitude if magnitude.is_infinite() => Ok("inf%".to_owned()),
-                _ => {
-                    let result = format!("{:.*}", precision, magnitude * 100.0);
+            Some(FormatType::Percentage) => match magnitude * 100.0 {
+                percent if percent.is_nan() => Ok("nan%".to_owned()),
+                percent if percent.is_infinite() => Ok("inf%".to_owned()),
+                percent => {
+                    let result = format!("{:.*}", precision, percent);
                     let point = float::decimal_point_or_empty(precision, self.alternate_form);
                     Ok(format!("{result}{point}%"))
                 }
